@@ -203,6 +203,7 @@ def lex(text, line0=1):
 
 
 TEMPLATE_IDS = {"layout_t", "const_subarray", "subarray", "get", "static_cast", "extensions_t", "range", "array_iterator", "basic_const_array"}
+MEMBER_TEMPLATES = {"reinterpret_array_cast", "member_cast", "static_array_cast", "reinterpret_array_cast_aux_"}
 TYPE_WORDS = {"typename", "const", "constexpr", "auto", "static"}
 
 
@@ -521,6 +522,8 @@ class P:
                 if self.at("template"):
                     self.eat()
                 name = self.eat()[1]
+                if self.at("<") and name in MEMBER_TEMPLATES:
+                    self.template_args()
                 e = ("mem", e, name)
             elif v == "[":
                 self.eat()
@@ -563,6 +566,17 @@ def match_paren_whole(s):
             if d == 0 and k != len(s) - 1:
                 return False
     return True
+
+
+def canon2(a, b):
+    """canonical operand order of a commutative operator on integers (`*`, `+`, `==`, `!=`): terms of the receiver first,
+    terms of the other operand (`other`, `src`) next, numerals last, then lexicographic — so that `n*stride`, `stride*n`,
+    `0 == x`, `x == 0` produce ONE Lean text (a harmless reordering of the source does not change the generated file)"""
+    def key(x):
+        t = x.strip()
+        rank = 2 if re.fullmatch(r"\(?-?\d+\)?", t) else (1 if re.search(r"\b(other|src)\b", t) else 0)
+        return (rank, t)
+    return (a, b) if key(a) <= key(b) else (b, a)
 
 
 def L_render(L):
@@ -946,7 +960,10 @@ class Interp:
             return ("bool", f"(!{paren(self.as_bool(self.eval(e[1])))})")
         if k in ("+", "-", "*"):
             a, b = self.eval(e[1]), self.eval(e[2])
-            return ("int", f"({paren(self.as_int(a))} {k} {paren(self.as_int(b))})")
+            x, y = paren(self.as_int(a)), paren(self.as_int(b))
+            if k in ("+", "*"):
+                x, y = canon2(x, y)
+            return ("int", f"({x} {k} {y})")
         if k == "/":
             a, b = self.eval(e[1]), self.eval(e[2])
             return ("int", f"(Int.tdiv {paren(self.as_int(a))} {paren(self.as_int(b))})")
@@ -956,17 +973,22 @@ class Interp:
         if k in ("==", "!="):
             a, b = self.eval(e[1]), self.eval(e[2])
             if a[0] == "ext" and b[0] == "ext":
-                t = f"(Ext.eqv {paren(a[1])} {paren(b[1])})"
+                x, y = canon2(paren(a[1]), paren(b[1]))
+                t = f"(Ext.eqv {x} {y})"
                 return ("bool", t if k == "==" else f"(!{t})")
             if a[0] == "lay" and b[0] == "lay":
-                t = f"({paren(L_render(a[1]))} == {paren(L_render(b[1]))})"
+                x, y = canon2(paren(L_render(a[1])), paren(L_render(b[1])))
+                t = f"({x} == {y})"
                 return ("bool", t if k == "==" else f"(!{t})")
             if a[0] == "bool" or b[0] == "bool":
                 return ("bool", f"({paren(self.as_bool(a))} {k} {paren(self.as_bool(b))})")
-            return ("bool", f"({paren(self.as_int(a))} {k} {paren(self.as_int(b))})")
+            x, y = canon2(paren(self.as_int(a)), paren(self.as_int(b)))
+            return ("bool", f"({x} {k} {y})")
         if k in ("<", "<=", ">", ">="):
             a, b = self.eval(e[1]), self.eval(e[2])
-            op = {"<": "<", "<=": "≤", ">": ">", ">=": "≥"}[k]
+            if k in (">", ">="):      # canonical direction: a > b is b < a
+                a, b, k = b, a, {">": "<", ">=": "<="}[k]
+            op = {"<": "<", "<=": "≤"}[k]
             return ("bool", f"(decide ({paren(self.as_int(a))} {op} {paren(self.as_int(b))}))")
         if k in ("&&", "||"):
             a, b = self.eval(e[1]), self.eval(e[2])
@@ -1186,7 +1208,8 @@ class Interp:
                     self.untranslated.append(st[2])
                     continue
                 try:
-                    self.asserts.append(self.as_bool(self.eval(st[1])))
+                    cond = self.as_bool(self.eval(st[1]))   # (evaluated first: inlining a helper replaces self.asserts)
+                    self.asserts.append(cond)
                 except TranslateError as ex:
                     self.untranslated.append(st[2])
             elif k == "decl":
